@@ -607,8 +607,12 @@ class Process:
         instances. If no parents are known return an empty list.
         """
         parents = []
+        # PIDs can be reused while we walk up, so the recorded parent
+        # links may form a cycle: stop as soon as a PID shows up twice.
+        seen = {self.pid}
         proc = self.parent()
-        while proc is not None:
+        while proc is not None and proc.pid not in seen:
+            seen.add(proc.pid)
             parents.append(proc)
             proc = proc.parent()
         return parents
